@@ -19,19 +19,21 @@ import bc
 import common
 
 MANIFEST = dict(
-    text='Theorems (props/C13.v) about a hand-written Gallina model of Broadcaster.broadcast: the join (outer alignment on shared level '
-         'names / cross product on disjoint ones, result levels = obj levels ++ new parameter levels) returns two objects with the same index '
-         '(same_index), every result row carries exactly the payload the original held for the row key restricted to the original\'s levels, or '
-         'NaN when it has no such key (rows_carry_restricted_value, unbounded, for all level layouts, orders and key sets), no matched row is '
-         'lost (covers_obj / covers_prm), the re-coding of index values to positions and back is transparent unless the coded indices coincide '
-         '(recode_transparent; coincidence refuted by witness = known finding), operands are restored on every normal return '
-         '(operands_restored) and left re-coded when an exception propagates (operands_left_recoded_on_exception). '
-         'The model is tied to the code by vm_compute correspondence on generated layouts; pandas align/join semantics are part of the model '
-         'and validated by the same correspondence.',
+    text='Theorems (props/C13.v, 18, all closed under the global context) about a hand-written Gallina model of Broadcaster.broadcast. '
+         'Join [bcast] (outer alignment on shared level names / cross product on disjoint ones, keys over obj levels ++ new parameter levels): '
+         'same_index; rows_carry_restricted_value (every result row carries exactly the payload the original held for the row key restricted to the '
+         "original's levels, or NaN when it has no such key -- unbounded: all level layouts, level orders, key sets); no_object_row_lost / "
+         'no_parameter_row_lost (rows with a partner or a complete key are in the result); bcast_raises_iff with equal_/disjoint_/all_matched_/contained_defined '
+         '(the layouts of the quantifier return) and contained_defined_refuted (known finding). Implementation sequence [bcast_impl] (fresh names for None, '
+         'per-level tables shared by both operands, positional codes, join on codes, decode, restore): decode_encode, table_complete, recode_transparent '
+         '(= the join of the operands themselves unless the coded indices coincide; proved by showing that the join commutes with every per-level recoding that is '
+         'injective on the tables), impl_rows_carry_restricted_value, recode_transparent_refuted (known finding), operands_restored on every normal return, '
+         'exception_iff, operands_left_recoded_on_exception. The model (including the observed pandas align/join behaviour and its `equals` short-circuit) is tied '
+         'to the code by vm_compute correspondence on generated layouts on every run; the property oracle runs on the implementation on every run.',
     note=common.TB_NOTE + 'all C13 theorems are closed under the global context. Model is hand-written (pandas align/join behaviour included as '
          'observed): the correspondence harness (generator, canonicalisation of pandas objects into key/row lists, Coq literals) is trusted; '
          'payloads are integer-valued floats so that a row identifies its origin exactly; float arithmetic only in the downstream Woehler relation '
-         '(compared at 1e-12 relative against scalar calls of the same implementation).',
+         '(compared at 1e-12 relative against scalar calls of the same implementation); the droplevel option and the HaighDiagram callers are not covered.',
     technique='Coq proof over hand-written Gallina model + vm_compute correspondence + property oracle on the implementation',
     design='6/C13')
 
